@@ -222,7 +222,9 @@ def run(rep, tier, props):
                 if x['findings']:
                     known_confirmed[kn] += 1
             for f in x['findings']:
-                if f['prop'] in props:
+                # a 'meaning' finding (the compiled constraint / objective is not the one written, e.g. a lost multiplier) is
+                # also C06's business: an accepted item silently replaced by another one
+                if f['prop'] in props or ('C06' in props and ':meaning:' in f['sig']):
                     rep.violation(f['sig'], f)
                 else:
                     other[f['sig']] = other.get(f['sig'], 0) + 1
